@@ -73,6 +73,8 @@ class CallMixin(object):
             raise OutsideSubset("call of value of type %r" % (fv.ty,))
         if isinstance(f, ast.Attribute) and self.dotted(f, st) == "itertools.takewhile" and len(e.args) == 2:
             return self.takewhile(e, st)
+        if isinstance(f, ast.Attribute) and self.dotted(f, st) in ("chain.from_iterable", "itertools.chain.from_iterable") and len(e.args) == 1:
+            return [(st1, core.concat_all(seq)) for st1, seq in self.ev_iter(e.args[0], st)]
         if isinstance(f, ast.Attribute):
             d = self.dotted(f, st)
             if d is not None and isinstance(f.value, ast.Attribute):
@@ -174,15 +176,17 @@ class CallMixin(object):
         """f(*args) where f is an opaque callable field declared in reg.callables (component bodies)."""
         f = e.func
         callables = getattr(self.reg, "callables", {})
-        if (isinstance(f, ast.Attribute) and len(e.args) == 1 and isinstance(e.args[0], ast.Starred) and not e.keywords):
+        if (isinstance(f, ast.Attribute) and len(e.args) >= 1 and isinstance(e.args[-1], ast.Starred) and not e.keywords
+                and not any(isinstance(a, ast.Starred) for a in e.args[:-1])):
             res = []
             for st1, obj in self.ev(f.value, st):
                 if isinstance(obj.ty, Ref) and (obj.ty.cls, f.attr) in callables:
                     c = callables[(obj.ty.cls, f.attr)]
                     c = c[0] if isinstance(c, list) else c
                     fld = self.heap_get(st1, obj, f.attr)
-                    for st2, seq in self.ev_iter(e.args[0].value, st1):
-                        res.extend(self.call_contract(c, [fld, seq], {}, st2, None))
+                    for st1b, lead in self.ev_list(e.args[:-1], st1):
+                        for st2, seq in self.ev_iter(e.args[-1].value, st1b):
+                            res.extend(self.call_contract(c, [fld] + lead + [seq], {}, st2, None))
                 else:
                     raise OutsideSubset("*args call of undeclared callable")
             return res
@@ -293,13 +297,13 @@ class CallMixin(object):
         results = []
         if c.pure:
             # a pure callee whose contract fixes the result is used as that expression (no fresh symbol)
-            for text in c.ensures:
+            for text in (c.call_ensures if c.call_ensures is not None else c.ensures):
                 t = text.strip()
                 if t.startswith("result == "):
                     v = self.spec(t[len("result == "):], pre)
                     if c.returns is BOOL:
                         v = V(BOOL, truthy(v))
-                    return [(st, self.adapt(v, c.returns))]
+                    return [(st, self.adapt(v, c.returns if c.yields is None else List(c.yields)))]
         # ---- exceptional outcomes
         if not self.in_spec:
             for ename, cond in c.raises.items():
@@ -355,7 +359,7 @@ class CallMixin(object):
                 ns.assume(*wf(gv))
             post.env[gname] = gv
             ns.env["%s_%s" % (c.qualname.split(".")[-1], gname)] = gv      # visible to the caller's invariants
-        for text in c.ensures:
+        for text in (c.call_ensures if c.call_ensures is not None else c.ensures):
             ns.assume(self.spec_bool(text, post))
         if not self.feasible(ns):
             return results
@@ -1003,6 +1007,11 @@ class CallMixin(object):
     def _py_strmethod(name):
         def h(self, recv, args, kw, st, node):
             P = core.py_sort()
+            if self.in_spec:
+                # specification: the string projection (meaningful under an `isinstance(x, str)` guard written in the clause)
+                s = V(STR, P.s(recv.t))
+                args2 = [V(STR, P.s(a.t)) if a.ty is PY else a for a in args]
+                return getattr(self, "m_str_" + name)(s, args2, kw, st, node)
             ok, bad = self.fork(st, P.is_PStr(recv.t), getattr(node, "lineno", None), "isstr")
             if bad is not None:
                 self.do_raise(bad, "AttributeError")
